@@ -348,8 +348,8 @@ def plan(tier):
         out += [(G3, 2, n, "full") for n in range(0, 5)]
         out += [(G3, 2, 5, "pareto")]
         out += [(G3, 3, n, "full") for n in range(0, 3)]
-        out += [(G3, 3, 3, "slim"), (G3, 3, 4, "pareto")]
-        out += [(G2, 2, 5, "full"), (G2, 3, 4, "full"), (G2, 4, 3, "full"), (G2, 5, 2, "full")]
+        out += [(G3, 3, 3, "pareto"), (G3, 3, 4, "pareto")]
+        out += [(G2, 3, 4, "full"), (G2, 4, 3, "full"), (G2, 5, 2, "full")]
     else:
         out += [(G3, 1, n, "full") for n in range(0, 7)]
         out += [(G3, 2, n, "full") for n in range(0, 6)]
